@@ -606,6 +606,15 @@ FOR_LOOP:
 			break FOR_LOOP
 		}
 
+		// stopServices was invoked (Stop or FlushStop, possibly from inside onReceive: a
+		// reactor stopping the peer): packets that were already buffered must not be
+		// dispatched to the reactors any more
+		select {
+		case <-c.quitRecvRoutine:
+			break FOR_LOOP
+		default:
+		}
+
 		// Read more depending on packet type.
 		switch pkt := packet.Sum.(type) {
 		case *tmp2p.Packet_PacketPing:
